@@ -266,7 +266,9 @@ func (app *App) txChecker() txChecker {
 		// replay protection is keyed by the hash of the raw bytes while the signatures cover the
 		// canonical serialisation of the parsed content: only the canonical encoding is accepted,
 		// otherwise one signed transaction could be submitted again in endlessly many encodings
-		if err == nil && !bytes.Equal(msg.Tx, tx.SignedBytes()) {
+		// (a document the decoder reports an error for is not canonical either: encoding/json may have filled
+		// the fields nevertheless, e.g. after skipping a wrongly typed duplicate of a key)
+		if err != nil || !bytes.Equal(msg.Tx, tx.SignedBytes()) {
 			app.Context.check.DiscardTxSession()
 			return ResponseCheckTx{
 				Code: CodeNotOK.uint32(),
@@ -339,7 +341,7 @@ func (app *App) txDeliverer() txDeliverer {
 			app.logger.Errorf("deliverTx failed to deserialize msg: %v, error: %s ", msg, err)
 		}
 		// only the canonical encoding of a transaction is accepted (see txChecker)
-		if err == nil && !bytes.Equal(msg.Tx, tx.SignedBytes()) {
+		if err != nil || !bytes.Equal(msg.Tx, tx.SignedBytes()) {
 			app.Context.deliver.DiscardTxSession()
 			return ResponseDeliverTx{
 				Code: CodeNotOK.uint32(),
